@@ -640,6 +640,14 @@ def antithetic_ob():
                 if p.outcome() != 'returns':
                     return Verdict('unknown', 'engine', time.time() - t0, str((p.outcome(), str(p.exception)[:300], p.traceback[-500:])))
                 res = p.result
+                # the shim models a symbolic slice only within range (torch would clamp silently): the range must be provable
+                for so in p.side:
+                    if so['kind'] == 'bounds':
+                        r = smt.prove(so['hyps'], so['goal'], timeout_ms=20000)
+                        if r.status != 'unsat':
+                            rr = real_exec(ANTI_REPLAY, {}, timeout=300)
+                            conf = not (rr.get('ok') and rr['result']['got'] == [])
+                            rows.append(('%s (%s) [shuffle=%s]' % (so['name'], so.get('info'), shuffle), 'refuted' if (r.status == 'sat' and conf) else 'unknown', tm.show(so['goal'])[:200]))
                 ok = len(res._shape) == 2
                 if ok:
                     r = smt.prove(p.facts(DIMS), tm.and_(tm.eq(ti(res._shape[0]), N), tm.eq(ti(res._shape[1]), T)), timeout_ms=20000)
